@@ -3,7 +3,9 @@ package PKG
 // C07: defer / panic / recover bookkeeping.   C12: state after an evaluation aborted by a panic.
 
 import (
+	"go/ast"
 	"go/token"
+	r "reflect"
 
 	"github.com/cosmos72/gomacro/base"
 	xr "github.com/cosmos72/gomacro/xreflect"
@@ -402,5 +404,92 @@ func VH_C13_interrupt_duringDeferredCall() {
 	vhAssert(rec == interface{}(base.SigInterrupt), "the interrupt is delivered when the function is left")
 	vhAssert(run.Signals.Async == base.SigNone && run.Signals.Sync == base.SigNone, "the interrupt is consumed")
 	vhAssert(run.CurrEnv == caller, "caller frame restored")
+	vhReach("end")
+}
+
+// ---- defer of builtins: defer delete(m, k) / defer copy(dst, src) / defer recover() ----
+// The call is compiled by the real compileDelete / compileCopy / compileRecover (argument sub-expressions come from the
+// harness), handed to the real Comp.Defer through a model of prepareCall, and the function body
+// [defer builtin(args); change the variables the arguments were computed from] is run by the real executor.
+
+var vhPreparedCall *Call
+
+func vhModelPrepareCall(c *Comp, node *ast.CallExpr, fun *Expr) *Call { return vhPreparedCall }
+
+func VH_C07_deferBuiltin() {
+	c := vhComp()
+	if vhSymbolic() {
+		u := &xr.Universe{}
+		u.BasicTypes = make([]xr.Type, int(r.UnsafePointer)+1)
+		u.BasicTypes[r.Int] = vhTypeOf(int(0))
+		u.BasicTypes[r.Bool] = vhTypeOf(false)
+		u.BasicTypes[r.Uint8] = vhTypeOf(uint8(0))
+		u.BasicTypes[r.String] = vhTypeOf("")
+		var e interface{}
+		u.TypeOfInterface = vhTypeOf(&e).Elem()
+		c.CompGlobals.Universe = u
+	}
+	run := vhNewRun()
+	which := vhPick("deferred builtin: delete / copy / recover", 3)
+	k1, k2, key := vhU8("k1"), vhU8("k2"), vhU8("key")
+	vhAssume(k1 != k2)
+	m := map[uint8]int32{k1: 1, k2: 2}
+	dst := []int32{0, 0}
+	src := []int32{vhI32("s0"), vhI32("s1")}
+	want0, want1 := src[0], src[1]
+	keyAtDefer := key
+	bodyPanics := vhBool("the function panics after the defer statement")
+	args := []ast.Expr{&ast.Ident{Name: "a0"}, &ast.Ident{Name: "a1"}}
+	vhArgExprs = map[ast.Expr]*Expr{
+		args[0]: exprX1(vhTypeOf(m), func(env *Env) xr.Value { return xr.ValueOf(m) }),
+		args[1]: exprFun(vhTypeOf(key), func(env *Env) uint8 { return key }),
+	}
+	node := &ast.CallExpr{Fun: &ast.Ident{Name: "delete"}, Args: args}
+	cerr := false
+	func() {
+		defer func() {
+			if recover() != nil {
+				cerr = true
+			}
+		}()
+		switch which {
+		case 0:
+			vhPreparedCall = compileDelete(c, Symbol{Bind: Bind{Name: "delete"}}, node)
+		case 1:
+			vhArgExprs[args[0]] = exprX1(vhTypeOf(dst), func(env *Env) xr.Value { return xr.ValueOf(dst) })
+			vhArgExprs[args[1]] = exprX1(vhTypeOf(src), func(env *Env) xr.Value { return xr.ValueOf(src) })
+			vhPreparedCall = compileCopy(c, Symbol{Bind: Bind{Name: "copy"}}, node)
+		default:
+			vhPreparedCall = compileRecover(c, Symbol{Bind: Bind{Name: "recover"}}, &ast.CallExpr{Fun: &ast.Ident{Name: "recover"}})
+		}
+		vhPreparedCall.Builtin = true
+		c.Defer(&ast.DeferStmt{Call: node})
+	}()
+	vhAssert(!cerr, "defer of a builtin compiles")
+	if cerr {
+		return
+	}
+	// the rest of the body changes what the arguments were computed from, then optionally panics
+	c.append(vhPlainStmt(func(env *Env) {
+		key = k1 + k2 + 1 // differs from the key at defer time unless it wraps onto it: irrelevant, the map is checked below
+		src = []int32{-1, -2}
+		if bodyPanics {
+			panic("boom")
+		}
+	}))
+	f := c.Code.Exec()
+	rec := vhRunRecover(func() { f(&Env{Run: run}) })
+	switch which {
+	case 0:
+		vhAssert((rec != nil) == bodyPanics, "the deferred delete neither raises nor stops a panic")
+		_, has1 := m[k1]
+		_, has2 := m[k2]
+		vhAssert(has1 == (keyAtDefer != k1) && has2 == (keyAtDefer != k2), "delete(m, k) runs at function exit with the key evaluated at the defer statement")
+	case 1:
+		vhAssert((rec != nil) == bodyPanics, "the deferred copy neither raises nor stops a panic")
+		vhAssert(dst[0] == want0 && dst[1] == want1, "copy(dst, src) runs at function exit with the source slice evaluated at the defer statement")
+	default:
+		vhAssert((rec != nil) == bodyPanics, "defer recover() does not stop the panic: recover is not called by a deferred function")
+	}
 	vhReach("end")
 }
